@@ -27,6 +27,8 @@ TSP4 = [[0, 2, 1, 2], [2, 0, 2, 1], [1, 2, 0, 2], [2, 1, 2, 0]]
 TSP5 = [[0, 3, 4, 2, 7], [3, 0, 4, 6, 3], [4, 4, 0, 5, 8], [2, 6, 5, 0, 6], [7, 3, 8, 6, 0]]
 TSP4A = [[0, 1, 9, 9], [9, 0, 5, 6], [7, 9, 0, 5], [6, 8, 7, 0]]  # asymmetric
 TSP5A = [[0, 2, 9, 4, 7], [8, 0, 3, 9, 1], [5, 6, 0, 2, 9], [9, 1, 7, 0, 3], [2, 9, 4, 8, 0]]
+# two clusters of four towns: cheap inside a cluster, expensive between clusters (sub-tours are tempting)
+TSP8C = [[0 if i == j else (1 if (i < 4) == (j < 4) else 9) for j in range(8)] for i in range(8)]
 TSP6 = [[0, 5, 5, 2, 9, 4], [5, 0, 3, 7, 2, 6], [5, 3, 0, 4, 8, 1], [2, 7, 4, 0, 6, 3], [9, 2, 8, 6, 0, 5], [4, 6, 1, 3, 5, 0]]
 
 
@@ -90,9 +92,11 @@ def cases(tier):
         add("sts", [n], {"cfg": "smallest-mid" if False else "bc", "sym": True, "limit": 30}, symgroup=f"sts{n}")
         if n <= 6:
             add("sts", [n], {"cfg": "bc", "sym": False, "limit": 30}, symgroup=f"sts{n}")
-    for n in range(2, 8 if th else 7):
-        for cfg in ("bc", "split", "shaving") if n <= 5 else ("bc",):
+    for n in range(2, 10 if th else 9):
+        for cfg in ("bc", "split", "shaving") if n <= 5 else (("bc", "greatest-max") if n <= 8 else ("bc",)):
             add("circuit", [n], {"cfg": cfg}, count=math.factorial(n - 1), group=f"circuit{n}")
+    add("tsp", [TSP8C], {"cfg": "bc"}, reference_optimum=True)
+    add("tsp", [TSP8C], {"cfg": "bc", "cost_heuristics": True}, reference_optimum=True)
     add("knapsack", KNAP, {"cfg": "greatest-max"}, optimum=54, reference_optimum=True)
     add("knapsack", [[3, 4, 2, 5], [2, 3, 4, 1], 6], {"cfg": "bc"}, reference_optimum=True)
     add("knapsack", [[3, 4, 2, 5], [2, 3, 4, 1], 6], {"cfg": "shaving"}, reference_optimum=True)
@@ -191,7 +195,7 @@ def run(tier, seed):
         "states": n, "transitions": acc.c["solutions_validated"], "traces_validated_against_impl": n,
         "cases": n, "exhaustive": True,
         "bounds": f"tier={tier}: queens 1..{10 if tier == 'thorough' else 8}, latin 1..4 (two models), quasigroup5 5..{9 if tier == 'thorough' else 8}, "
-                  "magic square 2..4, magic sequence 1..12 (30), Golomb 4..7 (8), BIBD, Schur 3..9 (11) + 13,14, STS 4,6 (8), circuit 2..6 (7), "
+                  "magic square 2..4, magic sequence 1..12 (30), Golomb 4..7 (8), BIBD, Schur 3..9 (11) + 13,14, STS 4,6 (8), circuit 2..8 (9), clustered 8-town TSP, "
                   "knapsack, TSP 4-6 cities (+GR17), sudoku, donald, alpha; 1..3 processes on queens / latin / magic",
     }
     return finish(PROP, tier, seed, "exploration", acc, cov,
@@ -210,6 +214,9 @@ def replay(entry):
         print("replay:", w["case"], "->", {k: v for k, v in r.items() if k != "case"}, "expected", w.get("expected"))
         exp = w.get("expected", {})
         bad = r.get("invalid") or "error" in r or (exp.get("count") is not None and r.get("count") != exp["count"]) or (
-            exp.get("optimum") is not None and r.get("optimum") != exp["optimum"])
+            exp.get("optimum") is not None and r.get("optimum") != exp["optimum"]) or (
+            exp.get("reference_optimum") and r.get("optimum") != r.get("reference_optimum")) or (
+            exp.get("reference") and "reference_count" in r and r.get("count") != r["reference_count"]) or (
+            r.get("distinct") is not None and r.get("count") is not None and r["distinct"] != r["count"])
         rc = rc or (1 if bad else 0)
     return rc
